@@ -121,13 +121,18 @@ def userNameToFileName(userName, existing=[], prefix="", suffix=""):
     sliceLength = maxFileNameLength - prefixLength - suffixLength
     userName = userName[:sliceLength]
     # test for illegal files names
-    parts = []
-    for part in userName.split("."):
-        if part.lower() in reservedFileNames:
-            part = "_" + part
-        parts.append(part)
-    # the "_" added to reserved names must not make the name too long
-    userName = ".".join(parts)[:sliceLength]
+    while True:
+        parts = []
+        for part in userName.split("."):
+            if part.lower() in reservedFileNames:
+                part = "_" + part
+            parts.append(part)
+        # the "_" added to reserved names must not make the name too long,
+        # and clipping it again must not leave a reserved name at the end
+        clipped = ".".join(parts)[:sliceLength]
+        if clipped == userName:
+            break
+        userName = clipped
     # test for clash
     fullName = prefix + userName + suffix
     if fullName.lower() in existing:
